@@ -101,6 +101,7 @@ class Profile:
     forward_refs: bool = True  # dependencies on tasks that are declared later in the file
     unsched: bool = False  # sprinkle unschedulable leaves: never-working resource, cycles, group allocations
     container_work: bool = False  # containers that carry effort / allocate themselves
+    dup_edges: bool = False  # the same pair of tasks connected by a depends and a precedes statement with different gaps
     durs: list = field(default_factory=list)  # explicit (n, unit) project lengths to sample from (overrides weeks)
     starts: list = field(default_factory=list)  # explicit project start dates to sample from
 
@@ -149,7 +150,7 @@ def _hours(draw, res_min, crossmid: bool, listed_all: bool = False):
     if listed_all:
         first = days
     else:
-        first = draw(st.sampled_from([[0, 1, 2, 3, 4], [0, 1, 2, 3, 4, 5, 6], [0, 2, 4], [1, 3], [5, 6], [0, 1, 2, 3], [6, 0, 1]]))
+        first = draw(st.sampled_from([[0, 1, 2, 3, 4], [0, 1, 2, 3, 4, 5, 6], [0, 2, 4], [1, 3], [5, 6], [0, 1, 2, 3], [6, 0, 1], [4, 5, 6, 0], [5, 6, 0], [6, 0]]))
     groups = [first]
     if ngroups == 2:
         rest = [d for d in days if d not in first]
@@ -318,6 +319,15 @@ def project_specs(draw, pf: Profile):
                 c.shift = None
                 if not pf.zones:
                     c.tz = None
+            if pf.zones and draw(st.booleans()):
+                # the group lives in a zone; members follow it, name another zone or go back to UTC explicitly
+                g.tz = draw(st.sampled_from([z for z in zones if z != "UTC"]))
+                for c in g.children:
+                    z = draw(st.integers(0, 3))
+                    if z == 0:
+                        c.tz = "UTC"
+                    elif z == 1:
+                        c.tz = None
         rest = leafs[k:]
         if rest and draw(st.integers(0, 2)) == 0:
             # a second level: a department that holds the group and some more people
@@ -393,7 +403,8 @@ def project_specs(draw, pf: Profile):
                     alloc.append(draw(st.sampled_from(same)))
             t.alloc = alloc
             if pf.alternatives and len(alloc) == 1 and len(rids) >= 2 and draw(st.integers(0, 3)) == 0:
-                t.alt = [draw(st.sampled_from([x for x in rids if x != alloc[0]]))]
+                others = [x for x in rids if x != alloc[0]]
+                t.alt = draw(st.lists(st.sampled_from(others), min_size=1, max_size=min(2, len(others)), unique=True))
             eff = rmap[alloc[0]].efficiency()
             if pf.subslot and draw(st.integers(0, 3)) > 0:
                 t.effort = _effort_sub(draw, res_min, pf.max_slots)
@@ -402,7 +413,12 @@ def project_specs(draw, pf: Profile):
         if pf.priorities and draw(st.booleans()):
             t.priority = draw(st.sampled_from([1, 100, 250, 499, 500, 501, 750, 900, 1000]))
         if pf.task_limits and not is_ms and draw(st.integers(0, 3)) == 0:
-            t.limits = _limits(draw, res_min, resources=(t.alloc if draw(st.integers(0, 2)) == 0 else None))
+            qual = None
+            if draw(st.integers(0, 2)) == 0:
+                qual = list(t.alloc)
+                if len(qual) > 1 and draw(st.booleans()):  # a limit that names only some members of the team
+                    qual = sorted(draw(st.lists(st.sampled_from(qual), min_size=1, max_size=len(qual) - 1, unique=True)))
+            t.limits = _limits(draw, res_min, resources=qual)
 
     leaves_ = [(p, t) for p, t in nodes if not t.children]
     # dependencies: only on earlier-declared tasks => DAG by construction
@@ -481,6 +497,14 @@ def project_specs(draw, pf: Profile):
             if pf.relrefs and draw(st.booleans()):
                 d.rel = True
             t.deps.append(d)
+            if pf.dup_edges and not d.onstart and draw(st.integers(0, 3)) == 0:
+                # the same ordered pair connected a second time, through the other keyword and with another gap:
+                # both statements hold, the larger gap decides
+                d2 = Dep(q, via="precedes" if d.via == "depends" else "depends", rel=d.rel)
+                if d.gap is None or draw(st.booleans()):
+                    n = draw(st.integers(1, 3 * 1440 // res_min)) * res_min if not pf.subslot else draw(st.integers(1, 4000))
+                    d2.gap = (n, "min")
+                t.deps.append(d2)
 
     if pf.unsched:
         if draw(st.booleans()):
@@ -580,10 +604,16 @@ def _limits(draw, res_min, resources=None):
         mins = k * res_min
         if draw(st.integers(0, 5)) == 0:
             mins += res_min // 2
-        out.append(Limit("dailymax", _hours_txt(mins), "h", list(resources or [])))
+        if draw(st.integers(0, 3)) == 0:  # the same value written in minutes
+            out.append(Limit("dailymax", str(mins), "min", list(resources or [])))
+        else:
+            out.append(Limit("dailymax", _hours_txt(mins), "h", list(resources or [])))
     if "w" in which:
         k = draw(st.integers(1, max(1, 40 * 60 // res_min)))
-        out.append(Limit("weeklymax", _hours_txt(k * res_min), "h", list(resources or [])))
+        if draw(st.integers(0, 3)) == 0:
+            out.append(Limit("weeklymax", str(k * res_min), "min", list(resources or [])))
+        else:
+            out.append(Limit("weeklymax", _hours_txt(k * res_min), "h", list(resources or [])))
     return out
 
 
